@@ -14,6 +14,13 @@
  *             vg->version; the model driver also runs the vpackvg TRANSLATED from vgp.c on the same arguments, a difference
  *             shows as ` GEN=`); vunpackvg on records written by an independent
  *             writer in this file (versions 2,3,4, >4, negative; flags; attribute lists; NULs inside names) -> `unpackrec`;
+ *             vunpackvg on ARBITRARY bytes (such a record intact, truncated, bit-flipped, with 16-bit fields forced to 0xffff / 0x8000,
+ *             a negative nattrs, or plain noise) -> `unpackvg <hex> => <fields> | refused`.  vunpackvg has no length check: the record
+ *             sits between two PROT_NONE guard regions (at the end of the readable window; at its start when len < 5, because the
+ *             function begins with &buf[len-5]) and the call runs in a forked child, so that an access outside buf[0..len) kills the
+ *             child instead of reading stale bytes; a dead child and a FAIL return are both printed as `refused` (the model's `none`).
+ *             The Lean driver also runs the TRANSLATED vunpackvg (H4.Gen.Fn.Vgp3) on the same bytes (` GEN=` on a difference: its
+ *             fields, or its ub / FAIL exactly when the real call was refused);
  *   external  a DFTAG_VG record written with Hputelement by the independent writer, then loaded by Vstart -> `putrec`;
  *   limits    (cases 7,8 mod 50): a Vgroup filled to MAX_REF = 65535 members refuses further Vaddtagref/Vinsert and keeps
  *             its members (in memory, on disk, after reopen); Vlone/VSlone with a Vgroup and a Vdata whose ref is 65535.
@@ -34,6 +41,9 @@
 #include VGP_C
 #include VG_C
 #include "hk.h"
+#include <sys/mman.h>
+#include <sys/wait.h>
+#include <fcntl.h>
 
 #define MAXG 64
 #define MAXV 64
@@ -780,6 +790,70 @@ static void free_vgstruct(VGROUP *vg)
     free(vg->tag); free(vg->ref); free(vg->vgname); free(vg->vgclass); free(vg->alist);
     VIrelease_vgroup_node(vg);
 }
+/* ------------------------------------------------------------------ vunpackvg on arbitrary bytes, between guard pages */
+enum { UG_GUARD = 1 << 20, UG_WIN = 1 << 17 };
+static uint8_t *ug_map;
+static void unpackvg_guarded(const uint8_t *rec, int len)
+{
+    if (!ug_map) {
+        ug_map = mmap(NULL, UG_GUARD + UG_WIN + UG_GUARD, PROT_NONE, MAP_PRIVATE | MAP_ANONYMOUS, -1, 0);
+        if (ug_map == MAP_FAILED || mprotect(ug_map + UG_GUARD, UG_WIN, PROT_READ | PROT_WRITE)) { hk_fail("vg-unpackvg-setup", "mmap"); ug_map = NULL; return; }
+    }
+    /* every access behind the record hits the rear guard; &buf[len-5] with len < 5 hits the front guard */
+    uint8_t *p = len >= 5 ? ug_map + UG_GUARD + UG_WIN - len : ug_map + UG_GUARD;
+    memcpy(p, rec, (size_t)len);
+    fflush(stdout);
+    pid_t pid = fork();
+    if (pid < 0) { hk_fail("vg-unpackvg-setup", "fork"); return; }
+    if (pid == 0) {
+        int dn = open("/dev/null", O_WRONLY);
+        if (dn >= 0) dup2(dn, 2);
+        VGROUP *vg = VIget_vgroup_node();
+        int     res = vunpackvg(vg, p, len);
+        printf("T vg unpackvg "); hk_hex(rec, (size_t)len); printf(" => ");
+        if (res == FAIL) printf("refused"); else print_vgstruct(vg);
+        printf("\n");
+        fflush(stdout);
+        _exit(0);
+    }
+    int st = 0;
+    waitpid(pid, &st, 0);
+    if (WIFEXITED(st) && WEXITSTATUS(st) == 0) hk_stat("unpackvg_returned", 1);
+    else { printf("T vg unpackvg "); hk_hex(rec, (size_t)len); printf(" => refused\n"); hk_stat("unpackvg_outside_buf", 1); }
+}
+static void unpackvg_round(REC *r, uint8_t *buf)
+{
+    rec_random(r, 1, hk_chance(15) ? 300 : 12);
+    int kind = (int)hk_range(0, 7);
+    if (kind == 6) { r->version = 4; r->flags |= 1; }
+    int len = rec_write(r, buf);
+    switch (kind) {
+        case 0: break; /* intact */
+        case 1: len = (int)hk_range(0, len); break; /* truncated anywhere */
+        case 2: for (int i = (int)hk_range(1, 3); i > 0 && len > 0; i--) buf[hk_range(0, len - 1)] ^= (uint8_t)(1u << hk_range(0, 7)); break;
+        case 3: len = (int)hk_range(len > 12 ? len - 12 : 0, len); /* the tail cut: version / more come from other bytes */
+                if (len > 0 && hk_chance(50)) buf[hk_range(0, len - 1)] ^= (uint8_t)(1u << hk_range(0, 7));
+                break;
+        case 4: len = (int)hk_range(0, 40); for (int i = 0; i < len; i++) buf[i] = hk_chance(50) ? hk_byte() : (uint8_t)hk_range(0, 4); break; /* noise */
+        case 5: if (len >= 2) { /* a 16-bit field forced to an extreme value */
+                    static const unsigned X[] = {0xffff, 0x8000, 0x7fff, 0x0100, 0x0004, 0x0000};
+                    int at = (int)hk_range(0, len - 2) & ~1; put16(buf + at, X[hk_range(0, 5)]);
+                }
+                break;
+        case 6: { /* nattrs negative or huge */
+                    static const uint32_t NA[] = {0xffffffffu, 0x80000000u, 0x7fffffffu, 0x00010000u};
+                    int at = len - 5 - 4 * r->nattrs - 4;
+                    if (at >= 0) put32(buf + at, NA[hk_range(0, 3)]);
+                }
+                break;
+        default: if (len > 5) { /* the last five bytes (version, more, pad) moved: a stale tail */
+                    int cut = (int)hk_range(1, 4); memmove(buf + len - 5 - cut, buf + len - 5, 5); len -= cut;
+                 }
+                 break;
+    }
+    unpackvg_guarded(buf, len);
+}
+
 static void codec_case(int k)
 {
     static REC     r;
@@ -845,6 +919,9 @@ static void codec_case(int k)
             free_vgstruct(u);
         }
         hk_stat("codec_pack", 1);
+
+        /* (c) vunpackvg on arbitrary bytes */
+        for (int j = (int)hk_range(2, 6); j > 0; j--) unpackvg_round(&r, buf);
     }
     if (k < 6) printf("SAMPLE codec rounds=%d\n", rounds);
 }
